@@ -172,6 +172,13 @@ namespace GeographicLib {
     }
     static bool LengthOk(int width, int height, unsigned long long filelen)
     { return 4u * unsigned(width) * unsigned(height) == filelen; }
+    // CP1: the northing clause is a copy of the easting clause with one name left behind
+    static double Pad(double easting, double northing, double scale) {
+      double w = 0;
+      if (easting > 0) { w += easting / scale; if (std::fabs(easting / scale) > 0.5) w += 1; }
+      if (northing > 0) { w += northing / scale; if (std::fabs(easting / scale) > 0.5) w += 1; }
+      return w;
+    }
   };
 
   // K7: the eastward wrap test is off by one (ix == _width is not wrapped) before the file position is taken
